@@ -192,6 +192,16 @@ func (c c10Case) entries(s *store.Store) []gen.DirEntry {
 			es[i].Cid, es[i].Tsize = es[i%2].Cid, es[i%2].Tsize
 		}
 		return es
+	case "zero-tsize":
+		// one entry is an empty file (Tsize 0) among ordinary ones
+		es := gen.Leaves(s, c.Names)
+		ec, _ := gen.V1Raw.Sum(nil)
+		s.Put(ec, []byte{})
+		es[len(es)/2].Cid, es[len(es)/2].Tsize = ec, 0
+		if len(es) > 3 {
+			es[0].Cid, es[0].Tsize = ec, 0
+		}
+		return es
 	case "aliased-sizes":
 		// several names link the same block but record different sizes for it
 		// (Tsize is whatever the caller says): nothing may depend on which of
@@ -436,6 +446,8 @@ func runC10(r *core.Run) {
 		names := gen.SubsetOf(u, mask)
 		cases = append(cases, c10Case{Kind: "sharded", Fanout: 8, Names: names, Permute: len(names) <= 4, Variant: "shared-targets"})
 		cases = append(cases, c10Case{Kind: "plain", Names: names, Permute: len(names) <= 4, Variant: "shared-targets"})
+		cases = append(cases, c10Case{Kind: "sharded", Fanout: 8, Names: names, Permute: len(names) <= 4, Variant: "zero-tsize"})
+		cases = append(cases, c10Case{Kind: "plain", Names: names, Variant: "zero-tsize"})
 		cases = append(cases, c10Case{Kind: "sharded", Fanout: 8, Names: names, Permute: len(names) <= 4, Variant: "aliased-sizes"})
 		cases = append(cases, c10Case{Kind: "plain", Names: names, Permute: len(names) <= 4, Variant: "aliased-sizes"})
 	}
